@@ -49,6 +49,8 @@ def run(replay=None):
     for x in sents:
         toks, _ = render.substitute(x)
         text = ' '.join(toks)
+        if not thorough and ('within 2 s' in text or text.startswith('after p until q :')):
+            continue          # quick tier: fewer time bounds, one after-until variant
         o, p = call_parser('property', text)
         if o != 'ast':
             rep.skip('rejected:' + o)
